@@ -13,7 +13,7 @@ RULE = ('lines generated from the grammar SSH-<d>.<d+>-<token>[ <comments>] (tok
         'Banner.parse / Software.parse, end-to-end cases deliver 0..6 header lines then the banner from a scripted peer (CRLF or LF; in one write, cut in two inside the banner or a header line, or in 1-7 byte segments) and read the text and JSON report; '
         'a case is non-trivial when at least one generated line was parsed and every part (protocol, software, comments, flag, round trip) was compared; '
         'distinct = distinct batch / peer specifications')
-REQUIRED = {'lines_parsed': 5000, 'injected_lines': 500, 'product_lines': 300, 'e2e_runs': 20, 'e2e_blank_first_line': 6, 'e2e_long_header_lines': 8, 'e2e_with_header': 5, 'e2e_cut_inside_a_line': 10, 'e2e_header_then_cut_banner': 4}
+REQUIRED = {'lines_parsed': 5000, 'injected_lines': 500, 'product_lines': 300, 'e2e_runs': 20, 'e2e_protocol_1_99': 6, 'e2e_blank_first_line': 6, 'e2e_long_header_lines': 8, 'e2e_with_header': 5, 'e2e_cut_inside_a_line': 10, 'e2e_header_then_cut_banner': 4}
 ASSUMPTIONS = ['comments are compared after collapsing whitespace runs to one space (the normalisation the tool documents)',
                'each character outside 32..126 is expected to be shown as one replacement character; a multi-byte UTF-8 sequence or an undecodable byte counts as one character',
                'end-to-end delivery is one TCP segment smaller than the tool\'s 2048-byte read (segmentation is C09\'s subject)']
@@ -82,6 +82,9 @@ def cases(tier, seed):
     ne = 64 if tier == 'quick' else 1200
     for i in range(ne):
         cs.append({'kind': 'e2e', 'seed': rng.randrange(1 << 30), 'json': i % 3 == 2, 'headers': i % 7, 'eol': '\n' if i % 5 == 4 else '\r\n', 'inject': i % 4 == 3, 'product': i % 2 == 0, 'cut': ['none', 'in-banner', 'in-header', 'bytewise'][(i // 2) % 4]})
+    # servers announcing SSH-1.99 (both protocols): the same decomposition, sanitising and flagging
+    for i in range(8 if tier == 'quick' else 60):
+        cs.append({'kind': 'e2e', 'seed': rng.randrange(1 << 30), 'json': i % 4 == 3, 'headers': i % 3, 'eol': '\r\n', 'inject': i % 2 == 0, 'product': i % 4 < 2, 'cut': 'none', 'proto199': True})
     for i in range(8 if tier == 'quick' else 60):
         cs.append({'kind': 'e2e', 'seed': rng.randrange(1 << 30), 'json': i % 4 == 3, 'headers': i % 3, 'eol': '\n' if i % 2 == 0 else '\r\n', 'inject': False, 'product': i % 2 == 0, 'cut': ['none', 'in-banner'][(i // 2) % 2], 'blank_first': True})
     # one very long line before the banner (lengths around powers of two), half of them ending in something that looks like an identification string
@@ -137,8 +140,9 @@ def run_e2e(c):
     rng = random.Random(c['seed'])
     line, exp = gen_line(rng, inject=c['inject'], product=c['product'])
     # the audited peer must speak SSH-2 for the handshake to complete: force protocol 2.0
-    line = re.sub(r'^SSH-\d\.\d+', 'SSH-2.0', line)
-    exp['protocol'] = [2, 0]
+    proto = '1.99' if c.get('proto199') else '2.0'
+    line = re.sub(r'^SSH-\d\.\d+', 'SSH-' + proto, line)
+    exp['protocol'] = [1, 99] if c.get('proto199') else [2, 0]
     pre = [rng.choice(HEADER_POOL) + rng.choice(['', ' %d' % rng.randint(0, 999)]) for _ in range(c['headers'])]
     if c['headers'] >= 3:
         pre.insert(1, '')   # a blank line carries no text and is not reported
@@ -165,7 +169,7 @@ def run_e2e(c):
     args = ['-j'] if c['json'] else ['-n']
     r, p = audit.audit_server(script, args)
     viol = []
-    rendered = 'SSH-2.0-' + exp['software'] + (' ' + exp['comments'] if exp['comments'] else '')
+    rendered = 'SSH-' + proto + '-' + exp['software'] + (' ' + exp['comments'] if exp['comments'] else '')
     if r.status not in (0, 2, 3):
         viol.append(_v('C16/e2e-banner-not-accepted', 'audit failed although a well-formed banner line was sent', line=line, pre=pre, status=r.status, out=r.out[-300:]))
         return viol, {'e2e_runs': 1}
@@ -175,7 +179,7 @@ def run_e2e(c):
         except ValueError:
             return None, {'why': 'json unparsable'}
         b = doc.get('banner', {})
-        want = {'raw': rendered, 'protocol': '2.0', 'software': exp['software'], 'comments': exp['comments']}
+        want = {'raw': rendered, 'protocol': proto, 'software': exp['software'], 'comments': exp['comments']}
         for f in want:
             if b.get(f) != want[f]:
                 viol.append(_v('C16/e2e-json-banner:' + f, 'JSON banner object differs from the parts sent', line=line, got=b.get(f), want=want[f]))
@@ -204,7 +208,7 @@ def run_e2e(c):
             swl = rep.gen_value('software')
             if swl is None or (exp['product'] + ' ' + exp['version']) not in swl:  # a vendor name may precede the product
                 viol.append(_v('C16/e2e-software:' + exp['product'], 'software line does not carry product and version', line=line, got=swl))
-    return viol, {'e2e_runs': 1, 'e2e_blank_first_line': 1 if c.get('blank_first') else 0, 'e2e_long_header_lines': 1 if c.get('long_header') else 0, 'e2e_with_header': 1 if pre else 0, 'e2e_cut_inside_a_line': 1 if p.count('fault') else 0, 'e2e_header_then_cut_banner': 1 if pre and cut == 'in-banner' and p.count('fault') else 0}
+    return viol, {'e2e_runs': 1, 'e2e_protocol_1_99': 1 if c.get('proto199') else 0, 'e2e_blank_first_line': 1 if c.get('blank_first') else 0, 'e2e_long_header_lines': 1 if c.get('long_header') else 0, 'e2e_with_header': 1 if pre else 0, 'e2e_cut_inside_a_line': 1 if p.count('fault') else 0, 'e2e_header_then_cut_banner': 1 if pre and cut == 'in-banner' and p.count('fault') else 0}
 
 
 def run_case(c):
